@@ -412,3 +412,46 @@ META = {
     'technique': 'static analysis: API-existence resolution against installed libraries, linear-form symbolic execution of CIGAR arms, paired-update path check, comparison-predicate enumeration',
     'design_ref': 'DESIGN.md section 5, C15',
 }
+
+
+@rule('C15', 'C15-R5', 'the likelihood of a base is prod(its observations) / 0.25^(number of ITS observations - 1), and the MD tag names '
+                       'reference bases in upper case')
+def r5(ctx):
+    from ..domains import linform, Lin
+    g = ctx.fn(SEQUTILS, 'base_probabilities_to_likelihood')
+    comps = [c for c in walk_no_nested(g) if isinstance(c, ast.DictComp)]
+    ok = False
+    detail = 'likelihood comprehension not found'
+    if len(comps) == 1:
+        c = comps[0]
+        gen = c.generators[0]
+        vv = gen.target.elts[1].id if isinstance(gen.target, ast.Tuple) and len(gen.target.elts) == 2 and isinstance(gen.target.elts[1], ast.Name) else None
+        val = c.value
+        if isinstance(val, ast.BinOp) and isinstance(val.op, ast.Div) and isinstance(val.left, ast.Call) and isinstance(val.right, ast.Call) and vv:
+            prod_ok = [src(a) for a in val.left.args] == [vv]
+            pw = val.right
+            pw_ok = (dotted(pw.func) or '').split('.')[-1] in ('power', 'pow') and len(pw.args) == 2 and isinstance(pw.args[0], ast.Constant) and pw.args[0].value == 0.25 \
+                and linform(pw.args[1]) == Lin({f'len({vv})': 1}, -1)
+            ok = prod_ok and pw_ok
+            detail = f'likelihood `{src(val)}` with per-base observations `{vv}`' + ('' if pw_ok else f': the normaliser exponent `{src(pw.args[1]) if len(pw.args) == 2 else "?"}` is not len({vv}) - 1 '
+                                                                                     '(the number of observations of THIS base): bases supported by more observations are no longer favoured')
+    ctx.emit('C15-R5', ok, SEQUTILS, g, detail, key='likelihood-normaliser', what='base_probabilities_to_likelihood: normaliser does not use the per-base observation count')
+    # N pseudo observations: complement of every real observation
+    nasg = [s for s in g.body if isinstance(s, ast.Assign) and src(s.targets[0]) == "probs['N']"]
+    ok = len(nasg) == 1 and '1 - p' in src(nasg[0].value).replace('1-p', '1 - p') and "base != 'N'" in src(nasg[0].value)
+    ctx.emit('C15-R5', ok, SEQUTILS, nasg[0] if nasg else g, 'N receives the complement probability of every real observation', key='likelihood-N', nontrivial=False)
+    m = ctx.fn(SEQUTILS, 'create_MD_tag')
+    loops = [l for l in m.body if isinstance(l, ast.For)]
+    ok = False
+    detail = 'loop over (reference, query) not found'
+    if len(loops) == 1 and isinstance(loops[0].iter, ast.Call) and dotted(loops[0].iter.func) == 'zip' and isinstance(loops[0].target, ast.Tuple):
+        refv, qv = [e.id for e in loops[0].target.elts]
+        refarg = src(loops[0].iter.args[0])
+        apps = [c for c in walk_no_nested(loops[0]) if isinstance(c, ast.Call) and isinstance(c.func, ast.Attribute) and c.func.attr == 'append' and c.args and refv in names_in(c.args[0])]
+        upper_iter = refarg.endswith('.upper()')
+        upper_app = bool(apps) and all(src(c.args[0]) == f'{refv}.upper()' for c in apps)
+        ok = bool(apps) and (upper_iter or upper_app)
+        detail = f'MD mismatch letters come from `{refarg}`' + (' (upper case)' if ok else ': reference letters are written as found in the FASTA (lower case for soft-masked references; SAM requires [A-Z])')
+        cmpok = any(isinstance(c, ast.Compare) and qv in names_in(c) and refv in names_in(c) for c in walk_no_nested(loops[0]))
+        ok = ok and cmpok
+    ctx.emit('C15-R5', ok, SEQUTILS, m, detail, key='md-upper-case', what='create_MD_tag writes reference bases in the case of the FASTA')
